@@ -280,6 +280,7 @@ func parseModel(out string) map[string]string {
 }
 
 type Discharger struct {
+	survey  bool
 	w       *World
 	dir     string
 	timeout int
@@ -311,7 +312,7 @@ func (d *Discharger) discharge(o *Obligation) {
 		d.dischargeSplit(o)
 		return
 	}
-	if cj := splitGoal(o.Goal); r.status == "unknown" && len(cj) > 1 {
+	if cj := splitGoal(o.Goal); r.status == "unknown" && len(cj) > 1 && !d.survey {
 		// prove the conjuncts one by one
 		total := r.seconds
 		solver := map[string]bool{}
@@ -363,7 +364,7 @@ func (d *Discharger) discharge(o *Obligation) {
 		}
 		r.seconds = total
 	}
-	if r.status == "sat" {
+	if r.status == "sat" && !d.survey {
 		r = d.dyadicModel(o, r)
 	}
 	d.record(o, r)
@@ -454,6 +455,11 @@ func (d *Discharger) run(name string, hyps []*Term, goal *Term, inputs []InputVa
 		}
 		r := d.run1(name+".cone", cone, goal, inputs, ct, reveal)
 		if r.status == "unsat" {
+			return r
+		}
+		if r.status == "sat" && len(reveal) == 0 {
+			// The hypotheses left out share no symbol with the cone, so they cannot rule this model out
+			// (their own consistency is what the vacuity canary checks): the obligation fails.
 			return r
 		}
 	}
